@@ -79,23 +79,23 @@ add('C11', 'exploration', 'Hypothesis rule-based state machines per port kind + 
     'One state machine per port kind against an executable model of queue/wire/closure, with mido.ports.sleep replaced '
     'by a counting fake that plays scripted arrivals and device self-closure; blocking behaviour is decided as bounded '
     'safety (exact sleep-tick counts, budget). Every position of the self-close among 0-3 arrivals x drain method is '
-    'enumerated. Fault rules: device closes itself, device _send starts failing after k sends (every k around the 32 reset messages enumerated); MultiPort built from a generator; PortServer blocking receive.',
+    'enumerated. Fault rules: device closes itself, device _send starts failing after k sends (every k around the 32 reset messages enumerated); MultiPort built from a generator; PortServer blocking receive; devices whose _receive() returns the message directly; an exception raised inside a with-block must propagate; ports dropped without close (garbage collection).',
     TRUST + ' "Never blocks forever" is checked against a 40-tick budget (correct code needs at most the script length).')
 add('C12', 'exploration', 'Hypothesis + reference merge model (differential oracle)',
     'Drawn track lists (ties, floats, end_of_track anywhere, all three message classes) are merged and compared message '
     'by message with a reference merge (absolute tick, track index, position) plus structural invariants and '
-    'input-unchanged snapshots. Tracks as lists, tuples, generators, one-shot iterators; re-merge after editing inputs and after the caller edited an earlier result.',
+    'input-unchanged snapshots. Tracks as lists, tuples, generators, one-shot iterators; re-merge after editing inputs (adding ticks, moving a tick to a neighbour, changing a non-time attribute - also through MidiFile.merged_track of the same file object, type 0 and 1) and after the caller edited an earlier result; 1500 tracks.',
     TRUST)
 add('C13', 'exploration', 'Hypothesis + exact rational tempo map, fake clock simulation of play()',
     'Iteration and length are compared with an exact Fraction tempo-map integral over the reference merge order; play() '
     'runs on a fake clock with drawn consumer delays and oversleeps and its recorded sleep calls must equal a simulation '
-    'of "sleep exactly the remaining time"; tick2second/second2tick are checked as inverses over the full parameter ranges. An observation nested inside a running iteration, length after an in-place edit, a consumer that edits yielded messages, and two threads iterating two different files under the deterministic scheduler (every placement of one or two close preemptions in units.py / midifiles.py / tracks.py) are included.',
+    'of "sleep exactly the remaining time"; tick2second/second2tick are checked as inverses over the full parameter ranges. Files carry notation / routing meta events that must not influence timing; an observation nested inside a running iteration, length and iteration after in-place edits that keep every track length, a consumer that edits yielded messages, and two threads iterating two different files under the deterministic scheduler (every placement of one or two close preemptions in units.py / midifiles.py / tracks.py) are included.',
     TRUST + ' Stated float tolerances (1e-12 per message, 1e-9 cumulative, few ulps of the clock origin).')
 add('C14', 'exploration', 'Hypothesis round-trip / negative-grammar generation, eval(repr) in a restricted namespace',
     'Round trips through str, dict and repr for all message classes, tracks and files; negative texts are built by '
     'mutating valid lines with a catalogue of defects; streams mix valid, blank, comment and invalid lines; arbitrary '
-    'token soup checks totality (valid message or ValueError).',
-    TRUST + ' Lexical liberties of int()/float() and skip_checks= in text are not judged.')
+    'token soup checks totality (valid message or ValueError). Option words (skip_checks=1) in text are invalid; streams as list / tuple / iterator / file object; files loaded by name in eval(repr()).',
+    TRUST + ' Lexical liberties of int()/float() are not judged.')
 add('C15', 'exploration', 'Hypothesis over values x override sets x assignments, value-semantics oracle with multi-route hashing',
     'copy/freeze/thaw are checked for class mapping, equality, independence, rejection of every mutation on frozen '
     'messages and hash/dict agreement between equal messages built along different routes (constructor, from_bytes, file, '
@@ -104,27 +104,27 @@ add('C15', 'exploration', 'Hypothesis over values x override sets x assignments,
 add('C16', 'exploration', 'Hypothesis rule-based state machine, history-independence oracle against a freshly built file',
     'Edits through every documented route interleaved with observations (iterate, length, merged_track, play, save); '
     'each observation must equal the same observation on a freshly constructed MidiFile with the model contents; the '
-    'model is cross-checked against mid.tracks after every step. Every successful observation is additionally compared with an independent reference (reference merge, exact tempo map, byte-exact reference SMF encoding), so state that would poison the fresh file too is seen; charset edits, poked results, abandoned iteration/play.',
+    'model is cross-checked against mid.tracks after every step. Every successful observation is additionally compared with an independent reference (reference merge, exact tempo map, byte-exact reference SMF encoding), so state that would poison the fresh file too is seen; charset edits, poked results, abandoned iteration/play, splitting and joining tracks, `reload` (the history continues on the object the file reader produced), 12 000-message files.',
     TRUST)
 add('C17', 'fault_enumeration', 'Hypothesis-drawn files x enumeration of every fault point (truncation offset, bad byte, bad charset, failing n-th event), public-API probe oracle',
     'For each drawn (charset, texts) file every load truncation offset and every listed load/save fault is executed; '
     'after every call a probe through the public API shows whether latin1 is in force again; the success path compares '
-    'file bytes with text.encode(charset) via the strict reference decoder. Faults include an output file whose n-th write() fails (exception kept alive) and misspelt charsets; success path also through real files and charset assignment after construction.',
+    'file bytes with text.encode(charset) via the strict reference decoder. Faults include an output file whose n-th write() fails (exception kept alive) and misspelt charsets; success path also through real files and charset assignment after construction; texts that look like another encoding's signature or are special in Unicode; latin1 transparency probes after every call.',
     TRUST + ' Faults are those a load/save can meet from its inputs (no injected OS errors).')
 add('C18', 'fault_enumeration', 'Hypothesis-drawn message lists x enumeration of every disconnect offset over socketpair, prefix oracle; TCP PortServer scenarios; exhaustive address grid',
     'Every cut offset of every drawn stream (segmentation and poll placement drawn) is executed on an AF_UNIX socketpair '
     'with each drain method; the port must yield exactly the complete-message prefix, end iteration cleanly and report '
     'closed. Close propagation, send direction, PortServer with disconnecting clients and all 65535 ports x 7 hosts for '
-    'the address functions are covered. Every socket case runs under a watchdog thread so that OS-level blocking is reported instead of hanging the check.',
+    'the address functions are covered. Every socket case runs under a watchdog thread so that OS-level blocking is reported instead of hanging the check. Also: 70 000-message sessions (segmented and as one backlog), release of the connection after a half-close, server close seen by every client, the server listens on the address it was given, a client sending out-of-band data, close() from a second thread while a reader waits.',
     TRUST + ' The TCP part asserts timing-independent facts only (5 s deadline = lost, not slow, on loop-back).')
 add('C19', 'exploration', 'Hypothesis round trip through real temporary files + hand-formatted files, negative hex grammar',
     'Message lists are written in both SYX formats and read back; hand-written text (any whitespace, mixed case) and '
-    'binary files must read to the expected sysex list; a catalogue of malformed hex texts must raise ValueError. Stale longer file on the same path, 1500 messages in one file.',
+    'binary files must read to the expected sysex list; a catalogue of malformed hex texts must raise ValueError. Stale longer file on the same path, 1500 messages in one file, text files > 1 MiB, a 400 001-byte sysex.',
     TRUST)
 add('C20', 'exploration', 'exhaustive enumeration of the configuration grid with an in-memory import finder, reference-resolution oracle',
     'The complete grid of function x name x environment x backend naming x api source x use_environ x load x module shape '
     'x entry point is executed against fake backend modules served by a logging import finder; constructor arguments, '
-    'import timing/count, result types and listings are compared with a reference resolution written from the statement. Histories: repeated set_backend on one module, environment / use_environ changed between two calls on one Backend.',
+    'import timing/count, result types and listings are compared with a reference resolution written from the statement. Histories: repeated set_backend on one module, environment / use_environ changed between two calls on one Backend; Backend subclasses with further open_*/get_* functions; a decoy MIDO_BACKEND next to explicit backend names.',
     TRUST + ' Cells the statement leaves undefined are not generated.')
 
 NOT_YET = {}
